@@ -449,6 +449,7 @@ class Ctx:
     def assume_axiom(self, cond):
         self.axioms.append(cond)
         self.solver.add(cond)
+        self._model = None      # the cached model predates the axiom (it may violate it: spurious "feasible" branches)
 
     # -- branching ------------------------------------------------------------
     def _check(self, *assumptions):
